@@ -138,6 +138,10 @@ void multi_thread() {
     bool early_drop = dsim::flip();
     dsim::plan_note("threads listeners=%d emissions=%d early_drop=%d quotas=", nl, nem, (int)early_drop); for (int i = 0; i < nl; i++) dsim::plan_note("%d,", quota[i]);
     auto sig = std::make_unique<Sig>();
+    // connected callbacks that stay connected: after every call they put themselves back on the chain, on the collector's thread, while the
+    // listener threads push themselves onto the same chain
+    int ncb = dsim::choose(3); dsim::plan_note(" callbacks=%d", ncb);
+    for (int c = 0; c < ncb; c++) sig->connect([c, tok = std::make_shared<CbToken>(c)](long &v) { long n = dsim::cell_add(CB_CALLS + c, 1); if (v != n) dsim::cell_set(CB_BAD + c, 1); return true; });
     std::vector<std::thread> th;
     for (int i = 0; i < nl; i++) th.emplace_back([&, i, em = sig->get_emitter()] {
         listener(em, i, quota[i]).detach();      // suspends on this thread; from now on it is resumed by the collector thread
@@ -162,6 +166,10 @@ void multi_thread() {
     { auto drop = std::move(col); }
     sig.reset();
     if (early_drop) for (auto &t : th) t.join();
+    for (int c = 0; c < ncb; c++) {
+        if (dsim::cell_get(CB_CALLS + c) != nem || dsim::cell_get(CB_BAD + c)) dsim::fail("C15.callback", "connected callback %d was called %ld times for %d emissions (wrong value seen: %ld)", c, dsim::cell_get(CB_CALLS + c), nem, dsim::cell_get(CB_BAD + c));
+        if (dsim::cell_get(CB_GONE + c) != 1) dsim::fail("C15.callback", "connected callback %d released %ld times at disconnect", c, dsim::cell_get(CB_GONE + c));
+    }
     for (int i = 0; i < nl; i++) {
         long n = dsim::cell_get(NLOG + i);
         for (long k = 1; k < n && k < 64; k++) if (dsim::cell_get(LOG + 64 * i + (int)k) != dsim::cell_get(LOG + 64 * i + (int)k - 1) + 1) dsim::fail("C15.missed", "listener %d received %ld after %ld: a pure re-awaiting listener must see a contiguous run", i, dsim::cell_get(LOG + 64 * i + (int)k), dsim::cell_get(LOG + 64 * i + (int)k - 1));
